@@ -169,6 +169,18 @@ inductive CallOpt where
   | dialect | normalize
 deriving DecidableEq, Repr
 
+/-- the members of the `Schema` API that other modules touch; `modelled` = an operation (or a configuration /
+    state read) of the C18 model.  `get_udf_type` reads only `udf_mapping`, which is not modelled. -/
+inductive SchemaMethod where
+  | columnNames | getColumnType | hasColumn | find | addTable | empty | dialect | supportedTableArgs
+  | copy | getUdfType | other (name : String)
+deriving DecidableEq, Repr
+
+def SchemaMethod.modelled : SchemaMethod → Bool
+  | .getUdfType => false
+  | .other _ => false
+  | _ => true
+
 def nameHas (l : List NField) : CallOpt → Bool
   | .dialect => l.contains .dialect
   | .normalize => l.contains .normalize
